@@ -346,3 +346,18 @@ impl defmt::Format for PlainHdr {
         }
     }
 }
+
+/// Read-only accessors for the out-of-tree verification harness.
+/// Compiled only with the `verif` feature; adds no behaviour.
+#[cfg(feature = "verif")]
+impl PlainHdr {
+    /// The raw Message Flags byte as decoded / as it would be encoded.
+    pub fn verif_msg_flag_bits(&self) -> u8 {
+        self.flags.bits()
+    }
+
+    /// The raw Security Flags byte as decoded / as it would be encoded.
+    pub fn verif_sec_flag_bits(&self) -> u8 {
+        self.sec_flags.bits()
+    }
+}
